@@ -377,6 +377,8 @@ sqf::runtime::runtime::result sqf::runtime::runtime::execute(sqf::runtime::runti
             if (m_is_exit_requested)
             {
                 m_contexts.clear();
+                // The discarded script must not stay reachable as the active context
+                m_context_active = {};
                 m_state = state::empty;
             }
             m_run_atomic = false;
